@@ -408,6 +408,26 @@ pub async fn run_behaviour(id: &Value, b: &Value) -> Vec<Value> {
                             }
                         }
                     }
+                    // a shipped root the model refuses outright (it does not verify under its own keys): a client
+                    // that goes on must find a successor signed by the keys the shipped root declares, and
+                    // top-level metadata under it
+                    if !hist[i + 1..j].iter().any(|f| ["root", "ts", "sn", "tg"].contains(&f["ev"].as_str().unwrap_or(""))) {
+                        let sh = &e["shipped"];
+                        let rk: Vec<u64> = sh["rk"].as_array().map(|a| a.iter().filter_map(|x| x.as_u64()).collect()).unwrap_or_default();
+                        let valid = sh["signers"].as_array().map(|a| a.iter().filter_map(|x| x.as_u64()).filter(|k| rk.contains(k)).count()).unwrap_or(0) as u64;
+                        if sh["k"] == "root" && valid < sh["rthr"].as_u64().unwrap_or(1) {
+                            let mut succ = sh.clone();
+                            succ["v"] = json!(sh["v"].as_u64().unwrap_or(1) + 1);
+                            succ["signers"] = sh["rk"].clone();
+                            succ["len"] = json!(1);
+                            files.push((req_name(&ctx, &json!(["root", sh["v"].as_u64().unwrap_or(1) + 1])), succ.clone()));
+                            rootdoc = succ;
+                            let d = json!({"k":"ts","v":1,"exp":rootdoc["exp"],"len":1,"b":1,"signers":rootdoc["ts"],
+                                           "pin":{"v":1,"h":{"k":"none"},"len":0}});
+                            files.push((req_name(&ctx, &json!(["ts", 0])), d.clone()));
+                            tsd = Some(d);
+                        }
+                    }
                     let cons = rootdoc["cons"].as_bool().unwrap_or(false);
                     if let Some(tsv) = &tsd {
                         let pv = tsv["pin"]["v"].as_u64().unwrap_or(0);
